@@ -100,6 +100,8 @@ func (c *Collection) DeleteWithMeta(_ context.Context, key string, oldCas CAS, n
 
 // storeDocument performs a write to the underlying sqlite database of a document from a given event.
 func (c *Collection) storeDocument(txn *sql.Tx, e *event) error {
+	// A document is a tombstone exactly when it has no body, whichever call removed it.
+	e.isDeletion = e.value == nil
 	tombstone := 0
 	if e.isDeletion {
 		tombstone = 1
@@ -461,7 +463,7 @@ func (c *Collection) DeleteWithXattrs(ctx context.Context, key string, xattrKeys
 			return nil, err
 		}
 		e.revSeqNo++
-		_, err = txn.Exec(`UPDATE documents SET value=null, xattrs=?1, cas=?2, revSeqNo=?3 WHERE collection=?4 AND key=?5`, e.xattrs, newCas, e.revSeqNo, c.id, key)
+		_, err = txn.Exec(`UPDATE documents SET value=null, xattrs=?1, cas=?2, revSeqNo=?3, exp=0, isJSON=0, tombstone=1 WHERE collection=?4 AND key=?5`, e.xattrs, newCas, e.revSeqNo, c.id, key)
 		return e, err
 	})
 	return err
